@@ -66,7 +66,9 @@ def compute(case):
     """assemble with the Gauss assembler and with the fast assembler in THIS process; summary dict"""
     out = {}
     try:
+        import pyiga
         from pyiga import assemble
+        pyiga.set_max_threads(1)
         kvs = tuple(make_axis(a) for a in case["axes"])
         d = len(kvs)
         geo = make_fast_geo(case["geo"], d)
@@ -174,13 +176,22 @@ def run_fork(case):
         return {"exception": "NoOutput", "repr": "child exit status %d" % status}
 
 
+def run_child(case):
+    """forked child if this process is single-threaded (a forked copy of a process that already started pyiga's
+    assembly thread pool would wait forever for the pool threads that fork does not copy), else a new interpreter"""
+    import threading
+    if threading.active_count() > 1:
+        return run_exec(case)
+    return run_fork(case)
+
+
 def check_fast(case, stats=None):
     probs = []
     which, tol = case["which"], case["tol"]
     part = "fast:" + which
     tag = "%s_fast(axes=%s, geo=%s, tol=%g)" % (which, case["axes"], case["geo"], tol)
-    r1 = run_fork(case)
-    r2 = run_exec(case) if case.get("exec") else run_fork(case)
+    r1 = run_child(case)
+    r2 = run_exec(case) if case.get("exec") else run_child(case)
     for r in (r1, r2):
         if r.get("timeout"):
             probs.append((part + ":timeout", "%s did not finish within %d s" % (tag, TIMEOUT)))
